@@ -112,6 +112,23 @@ Proof. exact plane_sphere_sound. Qed.
 Print Assumptions C11_plane_sphere_circle.
 
 (* hypotheses are satisfiable: two crossing unit segments *)
+(* line / sphere (generated intersect_line3d_sphere): |point at u - centre|^2 - r^2 is the quadratic the routine solves, and when both roots
+   are in range the two points it returns lie on the sphere (root exact at the discriminant) *)
+Theorem C11_line_sphere_quadratic : forall l s u,
+  sqd3 (on3u l u) (sp_c s) - sp_r s * sp_r s == sph_a l * u * u + sph_b l s * u + sph_c l s.
+Proof. exact sphere_quadratic. Qed.
+Print Assumptions C11_line_sphere_quadratic.
+
+Theorem C11_line_sphere_two_points_on_the_sphere : forall qsqrt l s,
+  let a := sph_a l in let b := sph_b l s in let c := sph_c l s in let det := b * b - 4 * a * c in
+  let u1 := (- b + qsqrt det) / (2 * a) in let u2 := (- b - qsqrt det) / (2 * a) in
+  ~ a == 0 -> Qlt_bool det 0 = false -> qsqrt det * qsqrt det == det ->
+  LineSegment3D__u_in l u1 = true -> LineSegment3D__u_in l u2 = true -> Qeq_bool u1 u2 = false ->
+  intersect_line3d_sphere_seg qsqrt l s = Some (inr (on3u l u1, on3u l u2)) /\
+  sqd3 (on3u l u1) (sp_c s) == sp_r s * sp_r s /\ sqd3 (on3u l u2) (sp_c s) == sp_r s * sp_r s.
+Proof. exact line_sphere_two_points_on_sphere. Qed.
+Print Assumptions C11_line_sphere_two_points_on_the_sphere.
+
 Example C11_nonvacuous :
   let a := mkLR2 (mkV2 0 0) (mkV2 2 2) in let b := mkLR2 (mkV2 0 2) (mkV2 2 (-2)) in
   ~ det_lr a b == 0 /\ on2 a (1#2) =2= on2 b (1#2) /\ in_seg (1#2) /\
